@@ -138,6 +138,26 @@ def set_available(device, value=True):
     setattr(device, cands[0], value)
 
 
+def queue_items(q, _depth=0):
+    """The (cmd, data) pairs a per-stream queue of the packet store holds, oldest first, whatever container the store keeps them in:
+    asyncio.Queue / queue.Queue (a deque in `_queue`), a deque or list, or a private wrapper object around one of those."""
+    inner = getattr(q, '_queue', None)
+    if inner is not None:
+        q = inner
+    try:
+        return [(x[0], x[1]) for x in list(q)]
+    except TypeError:
+        pass
+    if _depth < 2:
+        names = list(getattr(q, '__slots__', ())) + list(getattr(q, '__dict__', {}))
+        for nm in names:
+            try:
+                return queue_items(getattr(q, nm), _depth + 1)
+            except (HarnessDrift, AttributeError, IndexError, TypeError):
+                continue
+    raise HarnessDrift('cannot read the packets held by a %s of the packet store' % type(q).__name__)
+
+
 class LockLeak(Exception):
     """A lock was requested while still held by an earlier call of this single-threaded session: it was leaked."""
 
